@@ -32,8 +32,10 @@ def rule_limit_bounds_every_rejection(ctx):
 
     ctx.res.minimum("O7.5", 1)
 
+    numeric = ["order"]
+
     def cell(ch):
-        run = protocol.reader_rows_run(ctx.model, ch, "validate()", 2)
+        run = protocol.reader_rows_run(ctx.model, ch, "validate()", 2, numeric[0])
         interp = run["interp"]
         key = protocol._rows_key(run)
         row_rejected = any(event[0] == "validate_row" and event[-1] == "DataError" for event in interp.events)
@@ -45,7 +47,15 @@ def rule_limit_bounds_every_rejection(ctx):
                     "validate(limit) raised %s" % protocol.exc_name(outcome[1]))
         return (key, None, None)
 
-    decide_kinds(ctx, "O7.5", "validate(limit): rejections need an offending row", "cutplace.validio.validate", cell, min_cells=40)
+    from ..model import AnalysisError
+
+    try:
+        decide_kinds(ctx, "O7.5", "validate(limit): rejections need an offending row", "cutplace.validio.validate", cell, min_cells=40)
+    except AnalysisError as error:
+        if "on order symbol" not in str(error):
+            raise
+        numeric[0] = "regions"  # the code computes with the header count or the limit
+        decide_kinds(ctx, "O7.5", "validate(limit): rejections need an offending row", "cutplace.validio.validate", cell, min_cells=40)
 
 
 def rule_until(ctx):
